@@ -61,11 +61,52 @@ func (b *baseSpace) newWorld() *World {
 	return w
 }
 
+// eventOps: commit / cache-drop / reopen events named in the spec's oracle list become alphabet operations.
+func (b *baseSpace) eventOps() []Op {
+	var ops []Op
+	for _, ev := range b.spec.Oracles {
+		switch ev {
+		case "ev:commit":
+			ops = append(ops, Op{K: "commit", N: 1}, Op{K: "commit", N: 3}, Op{K: "ncommit", N: 2})
+		case "ev:commit1":
+			ops = append(ops, Op{K: "commit", N: 1})
+		case "ev:cdrop":
+			ops = append(ops, Op{K: "cdrop"})
+		case "ev:creopen":
+			ops = append(ops, Op{K: "creopen"})
+		}
+	}
+	return ops
+}
+
+// noLookups: in the crash / cache-transparency / fault spaces lookups cannot change what a commit writes.
+func (b *baseSpace) noLookups() bool {
+	return b.spec.Has("crash") || b.spec.Has("twin") || b.spec.Has("faults")
+}
+
+func dropLookups(ops []Op) []Op {
+	out := ops[:0]
+	for _, o := range ops {
+		if o.K == "get" || o.K == "mget" || o.K == "mhas" {
+			continue
+		}
+		out = append(out, o)
+	}
+	return out
+}
+
 func (b *baseSpace) Build(path []Op) (*World, error) {
 	w := b.newWorld()
 	if w.Digests != nil {
 		// the collision limit is a process-wide global of the library
 		setCollisionLimit(w.Digests.Limit)
+	}
+	if b.spec.Has("crash") || b.spec.Has("twin") || b.spec.Has("faults") {
+		// histories contain commit / cache-drop / reopen events: the state key records which storage layer
+		// holds each slab, and the space can rebuild its history on a fresh world (differential oracles)
+		w.KeyStorage = true
+		w.TrackCommits = b.spec.Has("crash")
+		w.TwinBase = func() (*World, error) { return b.newWorld(), nil }
 	}
 	for _, op := range b.seed {
 		if err := w.Apply(op); err != nil {
@@ -144,6 +185,10 @@ func (s *arrSmall) Ops(w *World) []Op {
 	if s.spec.Has("events") {
 		ops = append(ops, Op{K: "commit", N: 1}, Op{K: "reopen"})
 	}
+	ops = append(ops, s.eventOps()...)
+	if s.noLookups() {
+		ops = dropLookups(ops)
+	}
 	return ops
 }
 
@@ -211,6 +256,10 @@ func (s *mapSmall) Ops(w *World) []Op {
 	}
 	if c.TypeID == 42 {
 		ops = append(ops, Op{K: "settype", C: 0, N: 43})
+	}
+	ops = append(ops, s.eventOps()...)
+	if s.noLookups() {
+		ops = dropLookups(ops)
 	}
 	return ops
 }
